@@ -37,6 +37,35 @@ Theorem C02_writes_keep_lengths : forall s h us sid' s' out,
 Proof. exact set_vec_len. Qed.
 Print Assumptions C02_writes_keep_lengths.
 
+(* Structural operations preserve cells. The k-th column of a freshly produced table holds:
+   a copy of the source column (>> leaves existing columns untouched; column selection; copy),
+   the SAME row selection applied to the source column (slices and masks are uniform over the
+   columns), the source column followed by the appended rows (<<), or the given list. *)
+Theorem C02_new_table_cells : forall s ht cs chs sids tsid' s' k c h,
+  step s (ONewTab ht cs chs sids tsid') = (s', Ok) ->
+  nth_error cs k = Some c -> nth_error chs k = Some h ->
+  exists v, getv s' h = Some v /\
+    match c with
+    | CFrom src None => exists vs, getv s src = Some vs /\ vals v = vals vs /\ nm v = nm vs
+    | CFrom src (Some idx) => exists vs, getv s src = Some vs /\ vals v = select (vals vs) idx SNone /\ nm v = nm vs
+    | CCat src extra => exists vs, getv s src = Some vs /\ vals v = vals vs ++ extra
+    | CLit l n => vals v = l /\ nm v = n
+    | CRes l n => vals v = l /\ nm v = n
+    end.
+Proof. exact new_table_cells. Qed.
+Print Assumptions C02_new_table_cells.
+
+(* The i-th row is the tuple of the i-th values of the columns (the row view of the model),
+   and transposing twice gives back the original cells, for every rectangular cell matrix. *)
+Definition row_view (s : state) (t : tab) (i : nat) : list sval :=
+  map (fun c => match getv s c with Some v => nth i (vals v) SNone | None => SNone end) (cols t).
+
+Theorem C02_transpose_involutive : forall (m : list (list sval)) nrows,
+  Forall (fun col => List.length col = nrows) m ->
+  transpose SNone (transpose SNone m nrows) (List.length m) = m.
+Proof. exact (transpose_involutive SNone). Qed.
+Print Assumptions C02_transpose_involutive.
+
 Example C02_example :
   let s := run init [ONewVec 1 (CLit [SInt 1; SInt 2] None) None 5] in
   snd (step s (ONewTab 4 [CFrom 1 None; CLit [SInt 1; SInt 2; SInt 3] None] [2; 3] [6; 7] 8)) = ErrOther /\
